@@ -64,8 +64,37 @@ def run(ctx):
         ctx.dist(name)
         if not m.is_solved():
             ctx.count("E2_constraints", "unsolved"); continue
-        sol = m.get_solution(); routes = sol[zoo.routes_key(name)]
+        sol = copy.deepcopy(m.get_solution()); routes = sol[zoo.routes_key(name)]
         rep["solution"] = routes
+        # (0') asking again gives the same answer (the first call may cache: the cache must hold what was returned)
+        try:
+            again = [copy.deepcopy(m.get_solution()) for _ in range(2)]
+        except Exception as e:
+            ctx.report(f"{name}: a second get_solution() raised {e!r}", rep); continue
+        ctx.count("E2_repeated_get_solution", "calls")
+        # ... also through the documented filtering variants (remove_empty_paths / remove_empty_walks), which must neither
+        # change what a later plain call returns nor lose routes when asked twice
+        import inspect
+        try:
+            par = [p_ for p_ in inspect.signature(m.get_solution).parameters if p_.startswith("remove_empty")]
+        except (TypeError, ValueError):
+            par = []
+        if par:
+            try:
+                f1 = copy.deepcopy(m.get_solution(**{par[0]: True})); f2 = copy.deepcopy(m.get_solution(**{par[0]: True}))
+                plain = copy.deepcopy(m.get_solution(**{par[0]: False}))
+            except Exception as e:
+                ctx.report(f"{name}: get_solution({par[0]}=True) raised {e!r}", rep); continue
+            rk = zoo.routes_key(name)
+            nonempty = [r_ for r_ in sol[rk] if len(r_) > 0]
+            if f1.get(rk) != f2.get(rk) or f1.get(rk) != nonempty or (par[0] in inspect.signature(m.get_solution).parameters and
+                    inspect.signature(m.get_solution).parameters[par[0]].default is False and plain.get(rk) != sol[rk]):
+                ctx.report(f"{name}: get_solution({par[0]}=True) twice gives {f1.get(rk)} then {f2.get(rk)}; the non-empty routes of the first "
+                           f"answer are {nonempty}; a later plain call gives {plain.get(rk)}", rep); continue
+        keys_ = [k_ for k_ in sol if not str(k_).startswith("_") and k_ != "graph"]
+        if any(a_.get(k_) != sol.get(k_) for a_ in again for k_ in keys_):
+            ctx.report(f"{name}: get_solution() called again returns something else: first {({k_: sol[k_] for k_ in keys_})!r:.300}, "
+                       f"then {({k_: again[-1].get(k_) for k_ in keys_})!r:.300}", rep); continue
         # (0) the class's own validity check accepts the solution it returned (decomposition / cover classes; the error
         #     classes' check is exercised by C07/C08)
         if name not in zoo.ERR and hasattr(m, "is_valid_solution"):
@@ -325,10 +354,15 @@ def run(ctx):
             kw["trusted_edges_for_safety"] = [tuple(x) for x in info["ignore"]] + [e for e in G.edges() if rng.random() < 0.5]
         rep = {"class": name, "instance": zoo.describe(info), "kwargs": {k: v for k, v in kw.items() if k != "solver_options"}}
         res = []
-        for variant in ("ignore", "scale0"):
+        for variant in ("ignore", "scale0", "ignore-without-safety"):
             kwv = dict(kw)
             if variant == "scale0":
                 kwv.pop("elements_to_ignore", None); kwv["error_scaling"] = {tuple(x): 0 for x in info["ignore"]}
+            if variant == "ignore-without-safety":
+                # reference: the same model with every safety optimisation off (which edges are "trusted" is then immaterial)
+                kwv["optimization_options"] = {"optimize_with_safe_sequences": False, "optimize_with_safe_paths": False,
+                                               "optimize_with_safety_as_subset_constraints": False, "optimize_with_safety_as_subpath_constraints": False,
+                                               "optimize_with_max_safe_antichain_as_subset_constraints": False, "optimize_with_safe_zero_edges": False}
             inf = dict(info); inf["kwargs"] = kwv
             try:
                 mv = zoo.construct(inf); mv.solve(); res.append((mv.is_solved(), objective(mv, name) if mv.is_solved() else None))
@@ -339,6 +373,9 @@ def run(ctx):
         ctx.case(["scale0trusted", rep["instance"], rep["kwargs"]], nontrivial=True); ctx.count("E2_scale0_equals_ignore_trusted", "cases")
         if res[0][0] != res[1][0] or (res[0][0] is True and not same(res[0][1], res[1][1])):
             ctx.report(f"{name}: with trusted edges for safety, ignoring gives {res[0]} but error scale 0 on the same elements gives {res[1]}", rep)
+        elif res[0][0] != res[2][0] or (res[0][0] is True and not same(res[0][1], res[2][1])):
+            ctx.report(f"{name}: with trusted edges for safety (an ignored heavy element among the candidates) the result is {res[0]}, "
+                       f"with every safety optimisation off it is {res[2]}", rep)
     # (8) elements_to_ignore_percentile (kMinPathErrorCycles): the documented shorthand for ignoring every element whose value is
     #     below the percentile -- must behave exactly like passing that list as elements_to_ignore, in edge and node mode
     import numpy as np
